@@ -51,6 +51,14 @@ impl Snapshot {
     }
 }
 
+#[cfg(raindb_verif)]
+impl Snapshot {
+    /// Verification accessor: the sequence number the snapshot was taken at.
+    pub fn verif_sequence_number(&self) -> u64 {
+        self.sequence_number()
+    }
+}
+
 /// The internal representation of a snapshot.
 #[derive(Debug)]
 pub(crate) struct InnerSnapshot {
